@@ -10,7 +10,7 @@ from ..models import nametable as NT
 
 PROPERTY_ID = 'C13'
 LEVEL = 'exploration'
-RULE = ('On every second step the observer first asks GetConnectionUnixUser / NameHasOwner / ListNames about each name (answers ignored): read-only questions must change nothing. histories on the real Bus with raw scripted clients (real handshake and Hello): RequestName with all 8 flag '
+RULE = ('many_names: one connection owning 70 / 600 (/ 3000) names is answered about each as if it held only that one. On every second step the observer first asks GetConnectionUnixUser / NameHasOwner / ListNames about each name (answers ignored): read-only questions must change nothing. histories on the real Bus with raw scripted clients (real handshake and Hello): RequestName with all 8 flag '
         'combinations, ReleaseName, disconnect, connect, by up to 4 clients on up to 2 names; enum: every history of '
         'length <=3 (quick) / <=4 (thorough) over 3 clients x 1 name x {8 request flags, release, disconnect}, '
         'exhaustive; enum_q3: three requests by three clients with all 8^3 flag combinations followed by every single '
@@ -499,6 +499,53 @@ def run_client_queries(case):
     return out
 
 
+def enum_many_names(tier):
+    """One connection that holds very many names (a service manager, a test bus): the answers about each of them are what
+    they would be if it held only that one."""
+    for n in ((70, 600) if tier == 'quick' else (70, 600, 3000)):
+        for waiter in (False, True):
+            yield {'n': n, 'waiter': waiter}
+
+
+def run_many_names(case):
+    out = []
+    try:
+        rig = N.BusRig()
+        a = rig.attach()
+        b = rig.attach()
+    except N.RigFailure as e:
+        return [Disc('rig.attach-failed', str(e))]
+    try:
+        names = ['org.verif.many.n%d' % i for i in range(case['n'])]
+        for i, nm in enumerate(names):
+            r = a.call_bus('RequestName', 'su', [nm, 1])          # allow replacement
+            if r is None or r['type'] != 2 or r['body'] != [1]:
+                return [Disc('many.request-refused', 'name %d of %d: %r' % (i + 1, case['n'], r and (r['type'], r['body'])))]
+        if case['waiter']:
+            r = b.call_bus('RequestName', 'su', [names[0], 0])
+            if r is None or r['body'] != [2]:
+                out.append(Disc('many.waiter-not-queued', repr(r and r['body'])))
+            r = b.call_bus('RequestName', 'su', [names[0], 4])      # the waiter declines queueing after all
+            if r is None or r['type'] != 2 or r['body'] != [3]:
+                out.append(Disc('many.waiter-decline', repr(r and (r['type'], r['body']))))
+        for nm in (names[0], names[-1]):
+            r = a.call_bus('RequestName', 'su', [nm, 0])            # asked again by its owner: already owner
+            if r is None or r['type'] != 2 or r['body'] != [4]:
+                out.append(Disc('many.owner-asks-again', '%s: %r' % (nm, r and (r['type'], r['body']))))
+        r = a.call_bus('RequestName', 'su', ['org.verif.many.one-more', 0])
+        if r is None or r['type'] != 2 or r['body'] != [1]:
+            out.append(Disc('many.one-more-refused', repr(r and (r['type'], r['body']))))
+        r = a.call_bus('ListQueuedOwners', 's', [names[0]])
+        if r is None or r['type'] != 2 or r['body'] != [[a.name]]:
+            out.append(Disc('many.queue', '%r (owner %s)' % (r and r['body'], a.name)))
+        r = a.call_bus('ReleaseName', 's', [names[1]])
+        if r is None or r['type'] != 2 or r['body'] != [1]:
+            out.append(Disc('many.release', repr(r and (r['type'], r['body']))))
+    except Exception as e:
+        out.append(Disc(exc_key(e, 'many.exception'), exc_detail(e)))
+    return out
+
+
 SUBCHECKS = [
     Subcheck('enum', run_history, classify, enumerate=enum_histories, shards={'quick': 16, 'thorough': 16},
              exhaustive_note='every history of length <=3 (quick) / <=4 (thorough) over 3 clients x 1 name x 30 operations'),
@@ -514,6 +561,10 @@ SUBCHECKS = [
                              'waiter x 16 flag pairs x {owner leaves, waiter leaves, owner releases}'),
     Subcheck('dense', run_history, classify, strategy=lambda tier: dense_history(tier),
              n={'quick': 500, 'thorough': 5000}, shards={'quick': 8, 'thorough': 16}),
+    Subcheck('many_names', run_many_names, lambda c: (True, ['n=%d' % c['n']] + (['with_waiter'] if c['waiter'] else [])),
+             enumerate=enum_many_names, shards={'quick': 4, 'thorough': 6},
+             exhaustive_note='one connection owning 70 / 600 (/ 3000) names, with and without a second connection that queues '
+                             'for one of them and then declines'),
     Subcheck('client_flags', run_client_flags, lambda c: (True, ['code%d' % c['code']]), enumerate=enum_client_flags,
              shards={'quick': 1, 'thorough': 1},
              exhaustive_note='16 requestBusName argument combinations x 4 reply codes'),
